@@ -1013,7 +1013,11 @@ class BaseEvolutionOperations(object):
                                      new_value):
         """Returns the SQL for changing a column's name."""
         new_field = copy.copy(field)
-        new_field.column = new_value
+        new_field.db_column = new_value
+
+        # A db_column of None means the column goes back to the default name
+        # for the field.
+        new_field.column = new_field.get_attname_column()[1]
 
         return self.rename_column(model, field, new_field)
 
